@@ -147,7 +147,9 @@ def multiEval (c : Ctx) (o : Ops α) (p a : List α) : Option (List α) :=
     if a.length > nchunks * chunklen then none                       -- assert!
     else
       (chunks a.length chunklen a).foldlM (fun (vals : List α) chk =>
-        match productTree c o chk with
+        -- a short chunk is padded with zero points up to deg(p) points (commit "fix: Poly::multi_eval …")
+        let pts := if chk.length + 1 < p.length then chk ++ List.replicate (p.length - 1 - chk.length) o.zero else chk
+        match productTree c o pts with
         | none => none
         | some tree =>
           match multiEvalTree c o p tree with
